@@ -23,7 +23,7 @@ FIELD_KINDS = {
     "Text": ("", 3, ["x", "yz", "abc"], ["abcd"], False),
 }
 #: accepted Text values made of a byte order mark, Unicode line / paragraph separators, NEL and a non-ASCII letter
-EXOTIC_TEXT = ["\ufeffx", "a\u2028", "\u0085", "\u00e9", "x\u2029y", "e\u0301", "\u212b", "1.0", "v.0"]
+EXOTIC_TEXT = ["\ufeffx", "a\u2028", "\u0085", "\u00e9", "x\u2029y", "e\u0301", "\u212b", "1.0", "v.0", "a\\b", "\\"]
 KIND_NAMES = sorted(FIELD_KINDS)
 OPERATORS = {"<": operator.lt, "<=": operator.le, "==": operator.eq, "!=": operator.ne, ">": operator.gt,
              ">=": operator.ge}
